@@ -15,8 +15,8 @@
                    (both are value-preserving widenings, LazyDType.promote_cast_id / cast_widen).
    __getitem__  -> [c_getitem]: scalar head (normalised, range-checked, routed with
                    find_indexer), slice head (per-part chunk_start with the
-                   (start - offset) mod stride phase, chunk_stop = stop - offset, reshape,
-                   np.concatenate; negative strides rejected), boolean-mask head (mask partitioned over the parts),
+                   (start - offset) mod stride phase, stop = max(start, stop), chunk_stop = stop - offset,
+                   reshape to the explicit chunk length, np.concatenate; negative strides rejected), boolean-mask head (mask partitioned over the parts),
                    integer-sequence head (negatives normalised, rows scattered into a
                    pre-allocated output part by part).
    Python's negative list index on `self.indexers[ind]` (reachable with negative strides) is
@@ -83,9 +83,14 @@ Definition py_nth {A} (l : list A) (i : Z) : res A :=
 
 Definition is_scalar (ix : aidx) : bool := match ix with AInt _ => true | _ => false end.
 
-(* .reshape([-1] + shape_tails): the identity, impossible when a tail dimension is empty *)
-Definition reshape_chunk (shape_tails : list Z) (x : arr) : res arr :=
+(* before the repair of F10b: .reshape([-1] + shape_tails), the identity, impossible when a tail dimension is empty
+   (numpy cannot infer the -1).  Kept for C05_concat_empty_tail_refuted_before_fix only. *)
+Definition reshape_chunk_before_fix (shape_tails : list Z) (x : arr) : res arr :=
   if existsb (fun d => d =? 0) shape_tails then Err else Ok x.
+
+(* chunk.reshape([len(chunk)] + shape_tails) (repair of F10b: the explicit number of rows instead of -1): the identity
+   on the answer of a part, which has the shape [rows] + shape_tails (parts of the model carry no chain of their own) *)
+Definition reshape_chunk (shape_tails : list Z) (x : arr) : res arr := Ok x.
 
 (* np.concatenate(chunks) *)
 Definition concat_chunks (dt : Z) (shape_tails : list Z) (chunks : list arr) : res arr :=
@@ -177,6 +182,9 @@ Definition c_head (ps : list cpart) (dt total : Z) (S : list sel) (head : aidx) 
       | None => Err
       | Some (start, stop, stride) =>
           if concat_stride_rejected stride then Err else
+          (* repair of F10: `stop = max(start, stop)` (generated) - a slice that ends before it starts is the empty
+             slice [start:start], so the range of indexers below is never empty *)
+          let stop := concat_slice_stop start stop in
           chunks <- slice_chunks dt ps starts tail shape_tails start stop stride false
                       (py_range (concat_first_indexer (find_indexer starts start) (find_indexer starts stop))
                                 (concat_end_indexer (find_indexer starts start) (find_indexer starts stop)) 1) ;;
